@@ -98,8 +98,8 @@ class C19(Prop):
                     c.update(fkind="string", kind=dtype, feature=vals, enum=enum)
                 c["n_bins"] = rng.randint(2, 6)
                 c["method"] = rng.choice(["quantile", "uniform", "sturges"])
-                if rng.random() < 0.2:
-                    c["fname"] = "model"
+                if rng.random() < 0.3:
+                    c["fname"] = rng.choice(["model", "model_"])  # named like the library's own model columns
             yield c
 
     def impl(self, case):
